@@ -240,7 +240,22 @@ def r14_5(ctx):
             ]
         else:
             shapes = [f"v = self.ctx.msg_size()\nreturn v {sym} {arg}"]
-        if any(pm_of(p, m).has(sh) for sh in shapes):
+        via_helper = False
+        if val == "date_header":
+            # the header's day behind an Optional-returning helper of the class that the inliner does not fold (it has a try)
+            body_ = [s_ for s_ in m.node.body if not (isinstance(s_, ast.Expr) and isinstance(s_.value, ast.Constant))]
+            if body_ and isinstance(body_[0], ast.Assign) and isinstance(strip_await(body_[0].value), ast.Call):
+                c0 = strip_await(body_[0].value)
+                if isinstance(c0.func, ast.Attribute) and norm(c0.func.value) == "self" and not c0.args and not c0.keywords and c0.func.attr in sc.methods:
+                    h = sc.methods[c0.func.attr]
+                    hshapes = [
+                        "msg = self.ctx.msg()\nif 'date' not in msg:\n    return None\ntry:\n    return parsedate(msg['date']).date()\nexcept (TypeError, ValueError):\n    return None",
+                        "msg = self.ctx.msg()\nif 'date' not in msg:\n    return None\ntry:\n    return parsedate(msg['date']).date()\nexcept ValueError:\n    return None",
+                        "msg = self.ctx.msg()\nif 'date' not in msg:\n    return None\nreturn parsedate(msg['date']).date()",
+                    ]
+                    if any(pm_of(p, h).has(x) for x in hshapes) and pm_of(p, m).has(f"v = self.{c0.func.attr}()\nif v is None:\n    return False\nreturn v {sym} {arg}"):
+                        via_helper = True
+        if via_helper or any(pm_of(p, m).has(sh) for sh in shapes):
             ctx.ok("R14.5", where(m), f"{op.upper()}: <{val}> {want} <argument>")
         else:
             ctx.bad("R14.5", m.module, m.qual, f"return <{val}> {sym} {arg}", f"{op.upper()} must compare the message's {val} with the argument using {want}: messages on the boundary are wrongly included/excluded (or the value compared is not this message's {val})", m.node.lineno)
@@ -248,8 +263,6 @@ def r14_5(ctx):
     # mailbox: parsedate() (email.utils.parsedate_to_datetime) raises ValueError for `Date: next tuesday`
     n_pd = 0
     for m in sc.methods.values():
-        if not m.name.startswith("_match_"):
-            continue
         par_ = parmap(m)
         for c in calls_in(m.node):
             if call_name(c) != "parsedate":
@@ -268,11 +281,12 @@ def r14_5(ctx):
                 ctx.ok("R14.5", where(m), "an unparsable Date: header is caught in the matcher (the message does not match)")
             else:
                 ctx.bad("R14.5", m.module, m.qual, norm(c, 60), "parsedate() raises ValueError for a Date: header that is not a date and nothing in the matcher catches it: one such message and every search with this key fails for the whole mailbox (no SEARCH response)", c.lineno)
-    ctx.floor("R14.5", n_pd, 3, "Date: header parses in search matchers")
+    ctx.floor("R14.5", n_pd, 1, "Date: header parses in the search class")
     # HEADER <field> <string>: every occurrence of the field is looked at (`msg[field]` / `msg.get(field)` is the first only)
     mh_ = sc.methods["_match_header"]
-    firsts = [x for x in ast.walk(mh_.node) if (isinstance(x, ast.Subscript) and norm(x.value) == "msg" and not isinstance(x.slice, ast.Slice)) or (isinstance(x, ast.Call) and call_name(x) == "get" and norm(call_recv(x)) == "msg")]
-    alls = [c for c in calls_in(mh_.node) if call_name(c) == "get_all" and norm(call_recv(c)) in ("msg", "self.ctx.msg()")]
+    msgv = {"self.ctx.msg()"} | {s_.targets[0].id for s_ in body_walk(mh_.node) if isinstance(s_, ast.Assign) and len(s_.targets) == 1 and isinstance(s_.targets[0], ast.Name) and norm(s_.value) == "self.ctx.msg()"}
+    firsts = [x for x in ast.walk(mh_.node) if (isinstance(x, ast.Subscript) and norm(x.value) in msgv and not isinstance(x.slice, ast.Slice)) or (isinstance(x, ast.Call) and call_name(x) == "get" and norm(call_recv(x)) in msgv)]
+    alls = [c for c in calls_in(mh_.node) if call_name(c) == "get_all" and norm(call_recv(c)) in msgv]
     if alls and not firsts:
         ctx.ok("R14.5", where(mh_), "HEADER: msg.get_all(<field>) - every occurrence of the field")
     else:
